@@ -260,6 +260,9 @@ func biased(r *rand.Rand) func([]board.Move) (board.Move, bool) {
 			case m.IsCapture():
 				w = 6
 			}
+			if m.IsCapture() && (m.To == board.A1 || m.To == board.H1 || m.To == board.A8 || m.To == board.H8) {
+				w = 40 // a rook captured on its home square: castling rights change without a king or rook move
+			}
 			ws[i] = w
 			total += w
 		}
@@ -325,6 +328,10 @@ var gameStarts = []string{
 	"r3k2r/p1ppqpb1/bn2pnp1/3PN3/1p2P3/2N2Q1p/PPPBBPPP/R3K2R w KQkq - 0 1",
 	"8/8/8/8/8/1k6/8/K1B2b2 w - - 99 80",
 	"8/8/4k3/8/8/3BB3/8/4K3 w - - 0 1",
+	"r3k2r/1P4P1/8/8/8/8/1p4p1/R3K2R w KQkq - 0 1",
+	"r3k2r/8/8/3BB3/3bb3/8/8/R3K2R w KQkq - 0 1",
+	"r3k2r/2N2N2/8/8/8/8/2n2n2/R3K2R b KQkq - 0 1",
+	"r3k2r/8/8/8/Q6q/8/8/R3K2R w KQkq - 0 1",
 }
 
 func genGame(o *Out, r *rand.Rand, thorough bool) {
